@@ -82,6 +82,12 @@ def run_order(kind: str, is_async: bool, mode: str, a0: int, b0: int, s0: int, i
             label = identify(built, raised)
             if label != (exp_out[1], exp_out[2], exp_out[3]):
                 ok = False
+    # the error factory of a contract runs only if that contract's error is raised (in particular not for a violated
+    # group of preconditions that is followed by a satisfied one)
+    if mode == "factory":
+        want_err = [] if exp_out[0] == "ret" else [(exp_out[1], exp_out[2], exp_out[3])]
+        if list(rt.errlog) != want_err:
+            ok = False
     witness = exp_out[0] == "violation" and raised is not None
     note((kind, is_async, mode, a0, b0, s0, i0, d1, a1, b1, i1, d2, a2, b2, tuple(rt.log), exp_out), witness)
     return ok, witness
